@@ -28,6 +28,10 @@ CHECKS = {
    text='Bounded in shape: read sets of ~9k trees (incl. nested memory reads, segmented cells, assignments with slice destinations) under mem_read=True/False; omissions are only accepted with a z3 proof of independence for all valuations. MatchExpr: 60+ patterns per width x bindings x mutations, soundness, completeness on instances, rejection of non-instances, repeated wildcards, and history independence between calls.',
    note='Trusted: z3, liftvc/den.py (a segment selector other than es/cs/ss/ds influences the address), the reference matcher is_instance.',
    ref='5 C16'),
+ 'C11': dict(cat='other', tech='contract "raises nothing, returns well-formed IR" on get_instr_expr / every semantic function, decided by computation on the returned tree for every operand shape of the structurally enumerated decoder space; value clauses (flag in {0,1}, overlapping cells) by z3',
+   text='Complete over the enumerated operand-shape space: every opcode path of the decoder trie x prefix sets x all ModRM x SIB grid gives ~270k instances (one per mnemonic/size/prefix/operand-shape), each lifted by the real code and checked against the well-formedness rules written from the property text. Failures are grouped by (mnemonic, clause, site in the IR); the 315 sites failing on the pinned tree are listed as known findings, anything else is a violation.',
+   note='Trusted: specs/irwf.py, z3. Register numbers inside memory operands and immediates are not varied (the IR shape does not depend on them except where the lifter inspects them). An element wider than its concatenation slot is not flagged (the property only demands tiling).',
+   ref='5 C11'),
 }
 NOT_YET = {}
 ALL = ['C%02d' % i for i in range(1, 20)]
@@ -55,7 +59,7 @@ def main():
         'hooks': {'guard': 'LRGH_MIASMX_VERIF', 'enable': 'unused: contracts are sidecar files under /verif/contracts, /repo is not instrumented',
                   'baseline_off_cmd': BASE_OFF, 'source_commits': [], 'add_only': True},
         'engines': [
-            {'name': 'liftvc', 'path': 'liftvc/', 'serves_properties': ['C05', 'C06', 'C15', 'C16'], 'kind_free_text': 'Engine B: IR denotation den() as z3 bit-vectors; equivalence / refinement queries over all machine states'},
+            {'name': 'liftvc', 'path': 'liftvc/', 'serves_properties': ['C05', 'C06', 'C15', 'C16', 'C11'], 'kind_free_text': 'Engine B: IR denotation den() as z3 bit-vectors; equivalence / refinement queries over all machine states'},
             {'name': 'pyvc', 'path': 'pyvc/', 'serves_properties': ['C14', 'C05'], 'kind_free_text': 'Engine A: AST -> verification conditions (symbolic execution with callee contracts), z3'},
         ],
         'checks': checks,
